@@ -63,7 +63,7 @@ def handle : Handler := fun op args =>
     pure (replyPy one (Ofx.Types.conv.unconvert en k r v))
   | "quantum", [n] => do
     let n ← decNat n
-    pure (replyOk [encOpt Dec.enc (Ofx.Types.quantumOfScale n)])
+    pure (replyOk [encOpt Dec.enc (some (Ofx.Types.quantumOfScale n))])
   | "spec.lex", [k, s] => do
     let (k, en) ← decKind k
     let s ← decStr s
@@ -76,6 +76,7 @@ def handle : Handler := fun op args =>
   | "py.int", [s] => (decStr s).map fun s => replyOk [encOpt encInt (pyIntParse s)]
   | "py.dec", [s] => (decStr s).map fun s => replyOk [encOpt Dec.enc (decParse s)]
   | "py.decstr", [d] => (Dec.dec? d).map fun d => replyOk [encStr (decToStr d)]
+  | "py.decfmt", [d] => (Dec.dec? d).map fun d => replyOk [encStr (decFormatF d)]
   | "py.quantize", [d, q] => do
     let d ← Dec.dec? d
     let q ← decInt q
